@@ -130,6 +130,12 @@ func concretise(m udpModel, h uint64) udpSpec {
 		}
 	}
 	sp.Bounds = append(sp.Bounds, sp.Cut)
+	switch {
+	case m.Pace == "heldwrite":
+		sp.Pace, sp.Slow = "burst", "tunnelWrite"
+	case sp.Sock == "fake" && len(sp.T) > 1 && (h>>24)%6 == 0:
+		sp.Slow = "sockWrite"
+	}
 	return sp
 }
 
@@ -245,6 +251,17 @@ func extras(env *fw.Env) []json.RawMessage {
 		add(udpSpec{Kind: "udp", Via: "tunnel", Sock: "fake", T: big, U: []int{65535, 65535, 65535}, Cut: bigLen, How: how, Pace: "burst", Bounds: []int{bigLen}})
 		add(udpSpec{Kind: "udp", Via: "direct", Sock: "fake", T: big, Cut: bigLen - 7, How: how, Pace: "burst", Bounds: []int{300000, bigLen - 7}})
 	}
+	// slow tunnel Writes while more datagrams arrive (ticker path, more-than-half path, batch-full
+	// path after transient write failures) and a slow UDP socket write while more stream is there
+	for _, via := range []string{"direct", "tunnel"} {
+		for _, u := range [][]int{{200, 100}, {100, 200, 50}, {1, 2}, {65535, 2, 255}, {65535, 65535, 65535}, {40000, 65535, 65535, 1}} {
+			add(udpSpec{Kind: "udp", Via: via, Sock: "fake", T: []int{2}, U: u, Cut: 4, How: "eof", Pace: "burst", Bounds: []int{4}, Slow: "tunnelWrite"})
+		}
+		add(udpSpec{Kind: "udp", Via: via, Sock: "real", T: []int{2}, U: []int{200, 100, 65507}, Cut: 4, How: "eof", Pace: "burst", Bounds: []int{4}, Slow: "tunnelWrite"})
+		add(udpSpec{Kind: "udp", Via: via, Sock: "fake", T: []int{2}, U: []int{65535, 65535, 65535, 65535, 300, 7}, Fail: 3, Cut: 4, How: "eof", Pace: "burst", Bounds: []int{4}, Slow: "tunnelWriteAfterFailures"})
+		add(udpSpec{Kind: "udp", Via: via, Sock: "fake", T: []int{200, 100, 255, 1}, Cut: 564, How: "eof", Pace: "burst", Bounds: []int{202, 304, 561, 564}, Slow: "sockWrite"})
+		add(udpSpec{Kind: "udp", Via: via, Sock: "fake", T: many, Cut: manyLen, How: "eof", Pace: "burst", Bounds: []int{5, manyLen}, Slow: "sockWrite"})
+	}
 	return out
 }
 
@@ -283,6 +300,10 @@ func drive(env *fw.Env, b fw.Behaviour) *fw.Trace {
 
 // ---- TLC jobs -------------------------------------------------------------------------------------
 func udpConsts(tseqs, useqs string, maxt, maxu int, batch int, devSpin, devNoUnblock bool, live string) map[string]string {
+	return udpConstsA(tseqs, useqs, maxt, maxu, batch, devSpin, devNoUnblock, false, live)
+}
+
+func udpConstsA(tseqs, useqs string, maxt, maxu int, batch int, devSpin, devNoUnblock, alias bool, live string) map[string]string {
 	b := func(x bool) string {
 		if x {
 			return "TRUE"
@@ -290,7 +311,7 @@ func udpConsts(tseqs, useqs string, maxt, maxu int, batch int, devSpin, devNoUnb
 		return "FALSE"
 	}
 	return map[string]string{"CLASSES": "{1, 2, 3, 4}", "BATCHSIZE": fmt.Sprint(batch), "TSEQS": tseqs, "USEQS": useqs,
-		"MAXT": fmt.Sprint(maxt), "MAXU": fmt.Sprint(maxu), "DEVSPIN": b(devSpin), "DEVNOUNBLOCK": b(devNoUnblock), "LIVE": live}
+		"MAXT": fmt.Sprint(maxt), "MAXU": fmt.Sprint(maxu), "DEVSPIN": b(devSpin), "DEVNOUNBLOCK": b(devNoUnblock), "ALIAS": b(alias), "LIVE": live}
 }
 
 func modelJobs(env *fw.Env) []fw.TLCJob {
@@ -322,6 +343,7 @@ type bgRun struct {
 	name     string
 	job      fw.TLCJob
 	mustFail bool
+	expect   []string // a must-fail run has to report one of these
 	res      *fw.TLCResult
 	err      error
 }
@@ -334,6 +356,7 @@ var (
 func startBackground(env *fw.Env) {
 	mk := func(name, cfg string, c map[string]string, mustFail bool) *bgRun {
 		return &bgRun{name: name, mustFail: mustFail,
+			expect: []string{"Temporal property UTermination was violated", "Temporal properties were violated"},
 			job: fw.TLCJob{Name: name, Module: "Relay", Cfg: cfg, Consts: c, Workers: 2, Timeout: 10 * time.Minute}}
 	}
 	bgRuns = []*bgRun{
@@ -342,6 +365,9 @@ func startBackground(env *fw.Env) {
 		mk("udp:as-found:only the missing wake-up, strict liveness", "Relay_udp_tmpl.cfg", udpConsts("TTiny", "UNone", 1, 1, 32, false, true, "UTermination"), true),
 		mk("udp:as-found(seeded cfg):T<=2xUSmall:liveness-modulo-deviations", "Relay_udp_seeded.cfg", nil, false),
 	}
+	alias := mk("udp:seeded-fault(alias cfg):ticker writes an aliased batch slice after Unlock", "Relay_udp_alias.cfg", nil, true)
+	alias.expect = []string{"Invariant UEncoded is violated"}
+	bgRuns = append(bgRuns, alias)
 	for _, r := range bgRuns {
 		bgWG.Add(1)
 		go func(r *bgRun) {
@@ -357,12 +383,14 @@ func joinBackground() error {
 		if r.err != nil {
 			return fmt.Errorf("%s: %v", r.name, r.err)
 		}
-		lasso := strings.Contains(r.res.Out, "Temporal property UTermination was violated") ||
-			strings.Contains(r.res.Out, "Temporal properties were violated")
+		found := false
+		for _, e := range r.expect {
+			found = found || strings.Contains(r.res.Out, e)
+		}
 		if r.mustFail {
-			fmt.Printf("[model] %s: generated=%d distinct=%d lasso_found=%v (expected: violated) (%.1fs)\n", r.name, r.res.Generated, r.res.Distinct, lasso, r.res.WallS)
-			if !lasso {
-				return fmt.Errorf("%s: TLC did not report the expected liveness violation:\n%s", r.name, tailStr(r.res.Out, 2000))
+			fmt.Printf("[model] %s: generated=%d distinct=%d expected_violation_found=%v (%s) (%.1fs)\n", r.name, r.res.Generated, r.res.Distinct, found, r.expect[0], r.res.WallS)
+			if !found {
+				return fmt.Errorf("%s: TLC did not report the expected violation:\n%s", r.name, tailStr(r.res.Out, 2000))
 			}
 		} else {
 			fmt.Printf("[model] %s: generated=%d distinct=%d ok=%v (%.1fs)\n", r.name, r.res.Generated, r.res.Distinct, r.res.OK, r.res.WallS)
@@ -393,7 +421,7 @@ func genJobs(env *fw.Env) []fw.TLCJob {
 	return []fw.TLCJob{
 		{Name: "gen:bidi", Module: "Relay", Cfg: "Relay_bidi_gen.cfg", Consts: map[string]string{"MAXSEND": ms, "EMIT": "TRUE"}, Workers: 1},
 		ugen("gen:udp-t", map[string]string{"MAXT": mt, "MAXU": "1", "TSEQS": "TAll", "USEQS": "USmall", "CUTS": `"all"`, "CHUNKS": "{99, 1, 2, 3}", "PACES": `{"burst"}`}),
-		ugen("gen:udp-u", map[string]string{"MAXT": "1", "MAXU": mu, "TSEQS": "TTiny", "USEQS": "UAll", "CUTS": `"end"`, "CHUNKS": "{99}", "PACES": `{"burst", "spaced"}`}),
+		ugen("gen:udp-u", map[string]string{"MAXT": "1", "MAXU": mu, "TSEQS": "TTiny", "USEQS": "UAll", "CUTS": `"end"`, "CHUNKS": "{99}", "PACES": `{"burst", "spaced", "heldwrite"}`}),
 	}
 }
 
